@@ -27,7 +27,9 @@ for pid in sorted(PROPS):
         "engine": p.get("engine", "lean+h-core"),
         "level_claimed": {"category": "proof", "text": p["level_text"], "design_ref": p["design_ref"]},
         "level_note": p["level_note"],
-        "technique": p.get("technique", TECH.get(p.get("engine", "lean+h-core"))),
+        "technique": p.get("technique", TECH.get(p.get("engine", "lean+h-core")))
+                     + "; supporting the tie and the search for a failing input (never standing in for a theorem): independent history monitor, static shape rules on the source (what the model treats as one atomic step)"
+                     + ((", scenario extras on the real code: " + ", ".join(p["extra"])) if p.get("extra") else ""),
     })
 m = {
     "version": 1,
